@@ -121,7 +121,8 @@ int c08_maxbits(int id)
 {
   const char* n = g_sigs[id].name;
   auto is = [&](const char* p) { return !strncmp(n, p, strlen(p)); };
-  if (!strcmp(n, "sin") || !strcmp(n, "cos") || is("sina_x") || is("cosa_x")) return 46;
+  if (!strcmp(n, "sin") || !strcmp(n, "cos")) return 62; // C09: values below 2^46 = raw below 2^62
+  if (is("sina_x") || is("cosa_x")) return 46;
   if (!strcmp(n, "tan") || is("tana_x")) return 62;
   if (!strcmp(n, "atan") || !strcmp(n, "atan2") || !strcmp(n, "hypot") || !strcmp(n, "atan_index_aprox") || !strcmp(n, "atan_aprox")) return 47;
   if (!strcmp(n, "sqrt") || !strcmp(n, "sqrt_abacus") || !strcmp(n, "sqrt_std")) return 47;
